@@ -9,10 +9,18 @@ import (
 
 // NewGoatOverChannel turns an input and an output channel into an RpcReadWriter.
 func NewGoatOverChannel(inQ chan *Rpc, outQ chan *Rpc) RpcReadWriter {
+	return newGoatOverChannel(inQ, outQ, nil)
+}
+
+// newGoatOverChannel is NewGoatOverChannel with an optional done channel:
+// once it is closed, Read and Write fail instead of using the queues.
+func newGoatOverChannel(inQ chan *Rpc, outQ chan *Rpc, done <-chan struct{}) RpcReadWriter {
 	read := func(ctx context.Context) (*Rpc, error) {
 		select {
 		case <-ctx.Done():
 			return nil, ctx.Err()
+		case <-done:
+			return nil, fmt.Errorf("read channel closed")
 		case rpc, ok := <-inQ:
 			if !ok {
 				return nil, fmt.Errorf("read channel closed")
@@ -25,6 +33,8 @@ func NewGoatOverChannel(inQ chan *Rpc, outQ chan *Rpc) RpcReadWriter {
 		select {
 		case <-ctx.Done():
 			return ctx.Err()
+		case <-done:
+			return fmt.Errorf("write channel closed")
 		case outQ <- rpc:
 			return nil
 		}
